@@ -15,7 +15,7 @@
 //   s <hex source> ## <abstract statement>     compile the source, run label `main` in the same
 //                                               context (objects live in level.o[k], level.n, level.v<k>)
 // names: 0 = empty StringResolvable, 1 = "", 2..5 = "n1".."n4".
-// Answer: `ok <r> T[1=ids;..;5=ids] A[live ids] C[id:cnt:fld,..]`, script level
+// Answer: `ok <r> T[1=ids;..;5=ids] A[live ids] C[id:cnt:fld,..] G[id:target:targetname,..]`, script level
 // `ok out=[line|line] T[..] A[..] C[..]`; everything printed on Output/Warn/Error in order, warnings
 // canonicalised to !null !nil (also: cast of NIL to listener) !cast !range.
 #include <morfuse/Script/Context.h>
@@ -155,6 +155,27 @@ std::string dump()
     for (size_t i = 0; i < g_objs.size(); ++i) if (Listener* l = g_objs[i].Pointer()) {
         if (!first) o << ','; first = false;
         o << (i + 1) << ':' << varOf(l, "cnt") << ':' << varOf(l, "fld");
+    }
+    o << "] G[";
+    first = true;
+    StringDictionary& dict = g_ctx->GetDirector().GetDictionary();
+    for (size_t i = 0; i < g_objs.size(); ++i) if (Listener* l = g_objs[i].Pointer()) {
+        if (!first) o << ','; first = false;
+        TargetComponent& tc = static_cast<SimpleEntity*>(l)->GetTargetComponent();
+        // setter-backed `target` field: "t<k>" is k, empty is 0
+        const str tg = tc.GetTarget().GetString(dict);
+        long tv = 98;
+        if (tg.length() == 0) tv = 0;
+        else if (tg[0] == 't' && tg.length() > 1 && tg.length() < 6) {
+            tv = 0;
+            for (size_t k = 1; k < tg.length(); ++k) { if (tg[k] < '0' || tg[k] > '9') { tv = 98; break; } tv = tv * 10 + (tg[k] - '0'); }
+        }
+        // cached target name (TargetComponent::GetTargetName): same numbering as T[..]
+        StringResolvable tnr = tc.GetTargetName();
+        const const_str tn = tnr.GetConstString(dict);
+        int nv = 9;
+        for (int n = 1; n <= 5; ++n) if (tn == constName(n)) nv = n;
+        o << (i + 1) << ':' << tv << ':' << nv;
     }
     o << "]";
     return o.str();
